@@ -105,8 +105,27 @@ impl<'a, 'tcx> Visitor<'a> for V<'tcx> {
                         ast::FormatArgsPiece::Literal(sym) => {
                             pieces.push(J::O(vec![("lit", J::s(sym.as_str()))]))
                         }
-                        ast::FormatArgsPiece::Placeholder(_) => {
-                            pieces.push(J::O(vec![("ph", J::B(true))]))
+                        ast::FormatArgsPiece::Placeholder(ph) => {
+                            let o = &ph.format_options;
+                            let width = match &o.width {
+                                Some(ast::FormatCount::Literal(n)) => *n as i128,
+                                Some(_) => -2,
+                                None => -1,
+                            };
+                            let plain = o.precision.is_none()
+                                && o.alignment.is_none()
+                                && o.sign.is_none()
+                                && !o.alternate
+                                && o.debug_hex.is_none();
+                            pieces.push(J::O(vec![
+                                ("ph", J::B(true)),
+                                ("trait", J::S(format!("{:?}", ph.format_trait))),
+                                ("arg", J::N(ph.argument.index.unwrap_or(usize::MAX) as i128)),
+                                ("width", J::N(width)),
+                                ("zero", J::B(o.zero_pad)),
+                                ("fill", J::S(o.fill.map(|c| c.to_string()).unwrap_or_default())),
+                                ("plain", J::B(plain)),
+                            ]))
                         }
                     }
                 }
